@@ -331,7 +331,7 @@ func runHostile(c *xplor.Ctx, withUnknown bool) *hostileResult {
 	res := &hostileResult{}
 	tgts := []vanguard.Protocol{vanguard.ProtocolConnect, vanguard.ProtocolGRPC, vanguard.ProtocolGRPCWeb, vanguard.ProtocolREST}
 	ti := c.Free("target-protocol", len(tgts)+1)
-	cfg := world.Config{MaxMsg: 1 << 16}
+	cfg := world.Config{MaxMsg: hostileMaxMsg}
 	switch c.Choose("target-codecs", 3) {
 	case 1:
 		cfg.Codecs = []string{"proto"}
@@ -369,7 +369,13 @@ func runHostile(c *xplor.Ctx, withUnknown bool) *hostileResult {
 		if base.name == "connect-unary-json" {
 			codec = "json"
 		}
-		cr := &wire.ClientReq{Form: base.form, Path: world.SvcPath + base.path, Codec: codec, Msgs: [][]byte{Enc(codec, MkMsg(`{"name":"a"}`))}}
+		msg := `{"name":"a"}`
+		if codec == "proto" && c.Choose("big-message", 2) == 1 {
+			// 20 kB in proto, 120 kB as JSON (control characters are escaped six-fold): fits
+			// the limit as sent, exceeds it once re-encoded
+			msg = `{"name":"` + strings.Repeat(`\u0001`, 20000) + `"}`
+		}
+		cr := &wire.ClientReq{Form: base.form, Path: world.SvcPath + base.path, Codec: codec, Msgs: [][]byte{Enc(codec, MkMsg(msg))}}
 		spec = world.SpecFromClient(cr)
 	}
 	desc := []string{}
@@ -604,8 +610,17 @@ func leadingMessageBad(spec *drive.ReqSpec) string {
 	if len(payload) == 0 {
 		return ""
 	}
-	if _, err := wire.Unmarshal(codec, world.MsgDesc(), payload); err != nil {
+	m, err := wire.Unmarshal(codec, world.MsgDesc(), payload)
+	if err != nil {
 		return "leading message does not decode"
+	}
+	if js, err := wire.Marshal("json", m); err == nil && len(js) > hostileMaxMsg && strings.HasSuffix(strings.SplitN(spec.Target, "?", 2)[0], "/Unary") {
+		// (Unary binds the whole message to the body; other rules put fields into the URL)
+		// (compact JSON is a lower bound of what any JSON codec produces for it)
+		return "leading message exceeds the message size limit once re-encoded for the REST backend"
 	}
 	return ""
 }
+
+// hostileMaxMsg is the message size limit of the hostile worlds.
+const hostileMaxMsg = 1 << 16
